@@ -979,3 +979,15 @@ VARIANTS += [
     dict(prop="C09", name="impression-info-length-checked-explicitly", benign=True,
          edits=[dict(file=HIF, find="        let &[key_id] = bytes else {\n            return Err(InvalidHybridReportError::Length(bytes.len(), 1));\n        };", replace="        if bytes.len() != 1 {\n            return Err(InvalidHybridReportError::Length(bytes.len(), 1));\n        }\n        let key_id = bytes[0];")]),
 ]
+
+URF = "ipa-core/src/helpers/buffers/unordered_receiver.rs"
+VARIANTS += [
+    dict(prop="C13", name="spare-keeps-head-instead-of-tail", expect="SPARE|extend:keeps-tail-then-chunk",
+         edits=[dict(file=URF, find="            self.buf = self.buf.split_off(self.offset);", replace="            self.buf.truncate(self.buf.len() - self.offset);")]),
+    dict(prop="C13", name="spare-leftover-starts-at-size", expect="SPARE|extend:slices",
+         edits=[dict(file=URF, find="            self.replace(&v[needed..]);", replace="            self.replace(&v[sz.min(v.len())..]);")]),
+    dict(prop="C13", name="spare-read-allows-one-past", expect="SPARE|read:slice-and-advance",
+         edits=[dict(file=URF, find="        if end <= self.buf.len() {", replace="        if end < self.buf.len() {")]),
+    dict(prop="C13", name="spare-needed-bound-first", benign=True,
+         edits=[dict(file=URF, find="            let needed = sz - remainder;\n            let mut tmp = GenericArray::<u8, M::Size>::default();\n            tmp[..remainder].copy_from_slice(&self.buf[self.offset..]);", replace="            let mut tmp = GenericArray::<u8, M::Size>::default();\n            let tail = &self.buf[self.offset..];\n            tmp[..remainder].copy_from_slice(tail);\n            let needed = sz - remainder;")]),
+]
